@@ -146,6 +146,26 @@ def clistTyOK : CList → Bool
 end
 
 
+/-! ### well-formedness of constants (hypothesis of the reader theorems) -/
+
+/-- the only textual ambiguity of the constant syntax: a vector constant whose first element's type is
+    spelled with a leading `{` would read as a packed struct (LLVM's own parser has the same rule) -/
+def firstNoBrace : CList → Bool
+  | .nil => true
+  | .cons t _ _ => (tyString t).head? != some 123
+
+mutual
+def cwf : Const → Bool
+  | .struct _ fs => clwf fs
+  | .arr es => clwf es
+  | .vec es => firstNoBrace es && clwf es
+  | _ => true
+def clwf : CList → Bool
+  | .nil => true
+  | .cons _ c rest => cwf c && clwf rest
+end
+
+
 /-! ### modules -/
 
 inductive Body where
